@@ -263,7 +263,24 @@ func genSiblingPair(r *Rng) (string, string, int, int) {
 	if r.Bool(0.3) {
 		cond = " WHERE " + genCond(r, "", 4)
 	}
-	switch r.Intn(14) {
+	switch r.Intn(16) {
+	case 14, 15:
+		// an analytic function on its own against the same function next to another one over the very same
+		// window: what the neighbour does with the partition (sort it, walk it backwards) is its own business
+		win := fmt.Sprintf("PARTITION BY %s ORDER BY %s", r.PickS("g", "id % 3", "s", "g"), r.PickS("id", "v, id", "s, id", "id DESC", "id"))
+		if r.Bool(0.15) {
+			win = "ORDER BY " + r.PickS("id", "v, id", "id DESC")
+		}
+		fa := func() string {
+			return r.PickS("ROW_NUMBER()", "RANK()", "DENSE_RANK()", "LAG(v)", "LEAD(v)", "FIRST_VALUE(s)", "LAST_VALUE(s)", "NTH_VALUE(v, 2)", "NTILE(2)", "LISTAGG(s, ',')", "SUM(v)", "COUNT(*)",
+				"JSON_AGG(v)", "CUME_DIST()", "PERCENT_RANK()", "LEAD(s, 2)", "LAG(s, 2, 'x')", "MAX(v)", "LEAD(v, 1, 0)", "LAST_VALUE(v) IGNORE NULLS", "FIRST_VALUE(v) IGNORE NULLS", "MIN(s)", "AVG(v)", "MEDIAN(v)")
+		}
+		a, b := fa(), fa()
+		base := fmt.Sprintf("SELECT id, %s OVER (%s) AS wa FROM a ORDER BY id;", a, win)
+		if r.Bool(0.5) {
+			return base, fmt.Sprintf("SELECT id, %s OVER (%s) AS wa, %s OVER (%s) AS wb FROM a ORDER BY id;", a, win, b, win), 2, 0
+		}
+		return base, fmt.Sprintf("SELECT id, %s OVER (%s) AS wb, %s OVER (%s) AS wa FROM a ORDER BY id;", b, win, a, win), 1, 1
 	case 12, 13:
 		// one syntax tree evaluated before and after the table changed its shape (a column
 		// added in front, a view declared again with its columns in another order) against
